@@ -20,6 +20,7 @@ import vlib
 import engine_b
 from engine_b import Inconclusive, function_body, parse_blocks, split_args, run_solver, model_values
 
+FREE_BOOLS = set()
 CALL = re.compile(r"^(.+?) = (.+)\((.*)\) -> \[return: (bb\d+)")
 MAX_STEPS = 4000
 
@@ -319,6 +320,11 @@ def lookup_paths(mir, N):
 				loc, targets = mm.groups()
 				tl = dict(re.findall(r"(\w+): (bb\d+)", targets))
 				d = rd(p, loc)
+				if d and d[0] == "self_field" and d[1] == "bool":
+					# a flag of the operation set at build time (outside this executor): any value
+					name = "selfflag_" + re.sub(r"\W+", "_", pkey(loc)).strip("_")
+					FREE_BOOLS.add(name)
+					d = ("bool", name)
 				if d and d[0] == "bool":
 					stack.append(p.fork(tl.get("otherwise", tl.get("1")), d[1]))
 					p.conds.append(f"(not {d[1]})")
@@ -367,6 +373,7 @@ def lookup_paths(mir, N):
 def c08_smt(paths, N, kind):
 	L = ["(set-logic ALL)", "(declare-const n Int)", f"(assert (and (>= n 1) (<= n {N})))"]
 	L += ["(declare-fun has (Int) Bool)", "(declare-fun cs (Int) Int)", "(declare-const cself Int)"]
+	L += [f"(declare-const {b} Bool)" for b in sorted(FREE_BOOLS)]
 	# specification: index of the first source (< n) that has the tile, -1 if none
 	spec = "(- 1)"
 	for k in reversed(range(N)):
